@@ -1384,3 +1384,71 @@ Proof.
   destruct (write_frame_sync _ _ H) as (b2 & tl & -> & Hb2).
   cbn [app] in *. apply StreamRd_proofs.scan_skips_syncless; auto.
 Qed.
+
+(* ---------------- a whole raw stream: frames with independently varying parameters, sync-free bytes before,
+   between and after them; FlacStreamReader's loop returns every frame, in order, then reports the end ---------------- *)
+Record sitem := { it_garbage : list N; it_rate : N; it_bps : N; it_number : N; it_block : list (list Z) }.
+
+Definition item_ok (it : sitem) : Prop :=
+  syncless (it_garbage it) = true /\ block_shape (it_bps it) (it_block it) /\ it_number it <= MAX_FRAME_NUMBER /\
+  (exists rc, code_of_rate (it_rate it) = Some rc /\ rc <> 0) /\ code_of_bps (it_bps it) <> 0.
+
+Fixpoint subset_stream (o : eopts) (L : oracle) (items : list sitem) (trailer : list N) : option (list N) :=
+  match items with
+  | [] => Some trailer
+  | it :: rest =>
+      match enc_frame_bytes o L (it_rate it) (it_bps it) (it_number it) (it_block it), subset_stream o L rest trailer with
+      | Some b, Some r => Some (it_garbage it ++ b ++ r)
+      | _, _ => None
+      end
+  end.
+
+Definition item_hdr_ok (it : sitem) (x : header * list Z) : Prop :=
+  h_rate (fst x) = it_rate it /\ h_bps (fst x) = it_bps it /\ h_number (fst x) = it_number it /\
+  h_bs (fst x) = block_len (it_block it) /\ snd x = interleave_frame (it_block it).
+
+Lemma scan_syncless_eof : forall g fuel, syncless g = true -> scan fuel g = Err EEof.
+Proof.
+  induction g as [|a g IH]; intros fuel Hs; destruct fuel as [|fuel]; try reflexivity. cbn [scan].
+  assert (Hs' : syncless g = true).
+  { destruct g; [reflexivity|]. cbn [syncless] in Hs. apply andb_prop in Hs. tauto. }
+  destruct (N.eqb_spec a 255) as [->|Na]; cbn [negb]; [|apply IH; exact Hs'].
+  destruct g as [|b g']; [reflexivity|].
+  cbn [syncless] in Hs. apply andb_prop in Hs. destruct Hs as [Hp _]. cbn [N.eqb Pos.eqb andb] in Hp. rewrite Hp.
+  apply IH. exact Hs'.
+Qed.
+
+Lemma stream_read_all_acc : forall fuel bytes acc,
+  stream_read_all fuel bytes acc = (rev acc ++ fst (stream_read_all fuel bytes []), snd (stream_read_all fuel bytes [])).
+Proof.
+  induction fuel as [|fuel IH]; intros bytes acc; cbn [stream_read_all]; [cbn; rewrite app_nil_r; reflexivity|].
+  destruct (stream_read bytes) as [[[h chans] rest]|e|k]; cbn [fst snd rev app]; try (rewrite app_nil_r; reflexivity).
+  destruct (length rest <? length bytes)%nat; [|cbn; rewrite app_nil_r; reflexivity].
+  rewrite (IH rest ((h, interleave_frame chans) :: acc)), (IH rest [(h, interleave_frame chans)]).
+  cbn [fst snd rev app]. rewrite <- app_assoc. reflexivity.
+Qed.
+
+Theorem subset_stream_read_back o L : forall items trailer bytes fuel,
+  subset_stream o L items trailer = Some bytes -> Forall item_ok items -> syncless trailer = true ->
+  (length items < fuel)%nat ->
+  exists out, stream_read_all fuel bytes [] = (out, EndErr EEof) /\ Forall2 item_hdr_ok items out.
+Proof.
+  induction items as [|it items IH]; intros trailer bytes fuel H Hok Htr Hf; cbn [subset_stream] in H.
+  - injection H as <-. destruct fuel as [|fuel]; [cbn in Hf; lia|]. cbn [stream_read_all].
+    unfold stream_read. rewrite (scan_syncless_eof trailer _ Htr). exists []. split; [reflexivity|constructor].
+  - destruct (enc_frame_bytes o L (it_rate it) (it_bps it) (it_number it) (it_block it)) as [b|] eqn:Eb; [|discriminate].
+    destruct (subset_stream o L items trailer) as [r|] eqn:Er; [|discriminate]. injection H as <-.
+    apply Forall_cons_iff in Hok. destruct Hok as [(Hg & Hsh & Hnum & (rc & Erc & Hrc) & Hbc) Hrest].
+    destruct fuel as [|fuel]; [cbn in Hf; lia|]. cbn [length] in Hf.
+    destruct (IH trailer r fuel Er Hrest Htr ltac:(lia)) as (out & Hout & Hall).
+    cbn [stream_read_all]. unfold stream_read.
+    destruct (enc_frame_scanned o L _ _ _ _ b r rc (it_garbage it) (S (length (it_garbage it ++ b ++ r))) Eb Hsh Hnum Erc Hrc Hbc Hg ltac:(lia))
+      as (h & Hscan & Hr & Hb & Hn & Hbs).
+    rewrite Hscan.
+    assert (Hlt : (length r <? length (it_garbage it ++ b ++ r))%nat = true).
+    { apply Nat.ltb_lt. rewrite !app_length. unfold enc_frame_bytes in Eb.
+      destruct (enc_frame o L _ _ _ _) as [f|]; [|discriminate]. destruct (write_frame_sync _ _ Eb) as (b2 & tl & -> & _). cbn [length]. lia. }
+    rewrite Hlt, stream_read_all_acc, Hout. cbn [fst snd rev app].
+    exists ((h, interleave_frame (it_block it)) :: out). split; [reflexivity|].
+    constructor; [|exact Hall]. unfold item_hdr_ok. cbn [fst snd]. auto.
+Qed.
